@@ -85,11 +85,12 @@ theorem blocks_go (U : UnicodeOps) (cfg : Go.Cfg) (d : ParsedData) (st0 : Go.Imp
 
 theorem blocks_python (E : Ext) (cfg : Python.Cfg) (d : ParsedData) (st0 : Python.St) (text : Str) (st : Python.St)
     (h : Python.generate E cfg d st0 = .ok (text, st)) :
-    ∃ items blocks, Pipeline.generateOrder d = some items ∧
-      Threaded (Python.writeItem E cfg) items st0 blocks st ∧ blocks.length = items.length ∧
+    ∃ items blocks st1, Pipeline.generateOrder d = some items ∧
+      Threaded (Python.writeItem E cfg) items st0 blocks st1 ∧ blocks.length = items.length ∧
+      st = Python.addDatetimeImport st1 ∧
       text = Python.beginFile cfg ++ Python.writeAllImports st ++ Python.writeCustomFns st ++ blocks.flatten := by
-  obtain ⟨items, blocks, ho, ht, htext⟩ := Py.generate_blocks E cfg d st0 text st h
-  exact ⟨items, blocks, ho, ht, ht.length, htext⟩
+  obtain ⟨items, blocks, st1, ho, ht, hst, htext⟩ := Py.generate_blocks E cfg d st0 text st h
+  exact ⟨items, blocks, st1, ho, ht, ht.length, hst, htext⟩
 
 /-- the items written are the items of the `ParsedData`, each once (C11: `topsort` only permutes) -/
 theorem order_is_permutation (d : ParsedData) (items : List RustItem) (h : Pipeline.generateOrder d = some items) :
@@ -390,10 +391,11 @@ theorem emission_python (E : Ext) (cfg : Python.Cfg) (targetOs : List Str)
     parseErrs E (ctxOf (.python cfg) targetOs) f.file = [] ∧
     (emitted E (.python cfg) targetOs f).length = (sourceItems (ctxOf (.python cfg) targetOs) f.file).length ∧
     (emitted E (.python cfg) targetOs f = [] → outs = []) ∧
-    (emitted E (.python cfg) targetOs f ≠ [] → ∃ items blocks st' text,
+    (emitted E (.python cfg) targetOs f ≠ [] → ∃ items blocks st1 text,
       outs = [(f.crateName, text)] ∧ items.Perm (emitted E (.python cfg) targetOs f) ∧
-      Threaded (Python.writeItem E cfg) items {} blocks st' ∧
-      text = Python.beginFile cfg ++ Python.writeAllImports st' ++ Python.writeCustomFns st' ++ blocks.flatten ∧
+      Threaded (Python.writeItem E cfg) items {} blocks st1 ∧
+      text = Python.beginFile cfg ++ Python.writeAllImports (Python.addDatetimeImport st1) ++
+        Python.writeCustomFns (Python.addDatetimeImport st1) ++ blocks.flatten ∧
       Paired (fun it b => SplitsInto (pyDefs E it) b) items blocks) := by
   obtain ⟨herr, hlen, hnil, hcons⟩ := run_outputs E _ targetOs pick f outs h
   refine ⟨herr, by rw [emitted_length]; exact hlen, fun he => hnil (by simpa [emitted] using he), ?_⟩
@@ -402,8 +404,8 @@ theorem emission_python (E : Ext) (cfg : Python.Cfg) (targetOs : List Str)
   simp only [genAll, Py.generateAll_single] at hg
   obtain ⟨⟨text, st'⟩, hgen, hg⟩ := bindOk hg
   cases hg
-  obtain ⟨items, blocks, ho, ht, htext⟩ := Py.generate_blocks E cfg d' {} text st' hgen
-  exact ⟨items, blocks, st', text, rfl, (C12L.generateOrder_perm d' items ho).trans hperm, ht, htext,
+  obtain ⟨items, blocks, st1, ho, ht, rfl, htext⟩ := Py.generate_blocks E cfg d' {} text st' hgen
+  exact ⟨items, blocks, st1, text, rfl, (C12L.generateOrder_perm d' items ho).trans hperm, ht, htext,
     ht.forall₂.mono fun it b ⟨s, s', hw⟩ => Py.block_defines E cfg it s b s' hw⟩
 
 /-! ### consts: TypeScript, Go and Python print them; the other three fail the run -/
@@ -531,7 +533,8 @@ theorem C03_Emission : C03_Emission_full := by
     obtain ⟨h1, h2, h3, h4⟩ := emission_python E cfg targetOs pick f outs h
     refine ⟨h1, h2, h3, fun he => ?_⟩
     obtain ⟨items, blocks, st', text, ho, hp, ht, htext, hd⟩ := h4 he
-    exact ⟨items, blocks, Python.beginFile cfg ++ Python.writeAllImports st' ++ Python.writeCustomFns st', [], [],
+    exact ⟨items, blocks, Python.beginFile cfg ++ Python.writeAllImports (Python.addDatetimeImport st') ++
+      Python.writeCustomFns (Python.addDatetimeImport st'), [], [],
       text, 0, ho, hp, ht.length, by simp [htext], hd⟩
 
 /-! ## non-vacuity: a file with an un-annotated struct and an annotated tagged enum that has a unit
